@@ -56,5 +56,29 @@ static const Relation_Symbol REL5[5] = { LESS_THAN, LESS_OR_EQUAL, EQUAL, GREATE
 static const char* const REL5S[5] = { "<", "<=", "==", ">=", ">" };
 inline int rand_den() { return coin(70) ? rnd(1, 3) : -rnd(1, 3); }
 
+
+// ---------- logical-time watchdog (PPL's own deterministic weight counter) ----------
+// A step whose computational weight exceeds the budget is abandoned at PPL's next
+// abandonment checkpoint by throwing Logical_Timeout: hangs are detected in logical
+// time, never by wall clock.
+class Logical_Timeout : virtual public std::exception, public Throwable {
+public:
+  const char* what() const throw() { return "logical-time budget exceeded"; }
+  void throw_me() const { throw *this; }
+  int priority() const { return 0; }
+  ~Logical_Timeout() throw() {}
+};
+inline void logical_timeout_handler() { throw Logical_Timeout(); }
+typedef Threshold_Watcher<Weightwatch_Traits> Weightwatch;
+struct Weight_Guard {
+  Weightwatch ww; unsigned long long start;
+  explicit Weight_Guard(unsigned long long budget) : ww(budget, logical_timeout_handler), start(Weightwatch_Traits::weight) {}
+  unsigned long long used() const { return Weightwatch_Traits::weight - start; }
+};
+inline void note_weight(const char* name, unsigned long long w) {
+  std::map<std::string, unsigned long>& c = hx::st().counters; std::string k = std::string("max_weight.") + name;
+  if (c[k] < w) c[k] = w;
+}
+
 } // namespace pplx
 #endif
